@@ -18,73 +18,73 @@ CHECKS = {
     "C03": _e("Store-before-aggregate, per-type threshold guards over the right stake counters, at-most-once guards, aggregation inputs and "
               "hash keys, bitmask/stake provenance in try_new, created=>stored=>announced=>broadcast must-pass-through. BLS validity and set "
               "equality over histories are not decided."
-              " Composes C04 (what is counted is decided by the admission filters); certificate creation sites carry the exact guard set ('as soon as'). Composes C19 (every vote and certificate the pool counts came through the one bounded decoding door); NotarFallback duplicates are decided per block.", "DESIGN.md §3 C03", "dominance / must-pass-through / provenance rules over MIR"),
+              " Composes C04 (what is counted is decided by the admission filters); certificate creation sites carry the exact guard set ('as soon as'). Composes C19 (every vote and certificate the pool counts came through the one bounded decoding door); NotarFallback duplicates are decided per block. Also composes the exact thresholds of C01 and the signature table of C09; effectful loops run to exhaustion.", "DESIGN.md §3 C03", "dominance / must-pass-through / provenance rules over MIR"),
     "C04": _e("Decision tables of check_slashable_offence and should_ignore_vote extracted by CFG path enumeration and compared with the table "
               "written from the property text (symmetry in arrival order checked on the extracted table); filter order in Pool::add_vote; "
               "writers of the running totals; signer-index provenance."
-              " Every vote handed to SlotState::add_vote is recorded (one store per kind, selected by the kind only, on every path).", "DESIGN.md §3 C04", "bounded CFG path enumeration -> decision table comparison"),
+              " Every vote handed to SlotState::add_vote is recorded (one store per kind, selected by the kind only, on every path). Composes C08's discard boundary and admission obligations (per-slot records live as long as votes are admitted); structural (derived) equality of votes, hashes and indices.", "DESIGN.md §3 C04", "bounded CFG path enumeration -> decision table comparison"),
     "C05": _e("Every construction site of every vote kind in consensus::votor is dominated by the guards the voting rules require, followed by the "
               "flag updates, signed with the node's own key; flag writer sets; stale events dropped first. Interleavings across Pool x Votor are "
               "not decided."
-              " should_ignore_pool_event as a truth table over (pruned, retired) per event kind; composes the safe-to-notar / safe-to-skip predicates and stake bookkeeping of C06.", "DESIGN.md §3 C05", "edge-dominance guards with polarity, always-followed-by, who-may-write over MIR"),
+              " should_ignore_pool_event as a truth table over (pruned, retired) per event kind; composes the safe-to-notar / safe-to-skip predicates and stake bookkeeping of C06. Parent certification is decided per block hash and the waiting registry is keyed by block id (composed from C06); effectful loops run to exhaustion.", "DESIGN.md §3 C05", "edge-dominance guards with polarity, always-followed-by, who-may-write over MIR"),
     "C06": _e("check_safe_to_notar decision structure, trigger completeness (every certificate kind accepted as parent certification re-evaluates a "
               "waiting child; several children per parent), safe-to-skip predicate sibling agreement, at-most-once flags, stake bookkeeping."
-              " Exact guard sets at every event site; every comparison with a pruning watermark has the form slot < watermark. The re-evaluation on a skip vote / the own vote walks the whole pending_safe_to_notar set with no condition but already-sent.",
+              " Exact guard sets at every event site; every comparison with a pruning watermark has the form slot < watermark. The re-evaluation on a skip vote / the own vote walks the whole pending_safe_to_notar set with no condition but already-sent. Parent certification per block hash; waiting registry keyed by block id; loops over waiting children / pending blocks run to exhaustion.",
               "DESIGN.md §3 C06", "guard dominance, tables-agree and call-graph trigger rules over MIR"),
     "C07": _e("announce<=>record pairing inside the tracker, window-start and skip-certified guards, root guard before state creation, is_ready "
               "writers, certificate->tracker wiring, every tracker result announced."
-              " Scan stops at the first slot that is not skip-certified; a slot's own ready parents are passed on only behind is_skip_certified of that slot; watermark comparison form; composes the FinalizationEvent reporting rule of C08. Composes C08.event_flow (every FinalizationEvent reaches handle_finalization) and C03 at-most-once (a certificate is handed to the tracker once).", "DESIGN.md §3 C07", "dominance, pairing and wiring rules over MIR"),
+              " Scan stops at the first slot that is not skip-certified; a slot's own ready parents are passed on only behind is_skip_certified of that slot; watermark comparison form; composes the FinalizationEvent reporting rule of C08. Composes C08.event_flow (every FinalizationEvent reaches handle_finalization) and C03 at-most-once (a certificate is handed to the tracker once). The tracker handles a FinalizationEvent before anything is pruned; effectful loops run to exhaustion.", "DESIGN.md §3 C07", "dominance, pairing and wiring rules over MIR"),
     "C08": _e("No decided status left downgraded, direct finalization only from the right certificate pair, monotone watermarks written by their "
               "owners, discard boundaries are the watermark, admission before state creation, event flow into parent-ready + prune, answers from "
               "certificates, prune covers every per-slot container."
-              " Watermark comparison form (slot < watermark) everywhere; a slot displaced from an undecided status is always reported in the FinalizationEvent and a decided one never again; implicit finalization starts only from the block recorded as finalized; prune advances exactly over {Finalized, ImplicitlyFinalized, ImplicitlySkipped}. Direct finalization (mark_fast_finalized / mark_notarized / mark_finalized) is reported exactly for the displaced statuses that justify it (path classification by the displaced value, constants tracked per path).", "DESIGN.md §3 C08", "must-pass-through on displaced-value arms, provenance, field coverage over MIR/ADTs"),
+              " Watermark comparison form (slot < watermark) everywhere; a slot displaced from an undecided status is always reported in the FinalizationEvent and a decided one never again; implicit finalization starts only from the block recorded as finalized; prune advances exactly over {Finalized, ImplicitlyFinalized, ImplicitlySkipped}. Direct finalization (mark_fast_finalized / mark_notarized / mark_finalized) is reported exactly for the displaced statuses that justify it (path classification by the displaced value, constants tracked per path). Tracker-before-prune order in handle_finalization; structural equality of statuses and block ids; effectful loops run to exhaustion.", "DESIGN.md §3 C08", "must-pass-through on displaced-value arms, provenance, field coverage over MIR/ADTs"),
     "C09": _e("Admission typing (Validated* constructed only in try_new; compile-fail witnesses), range check before indexing and signature check "
               "under the same signer's key, kind binding tables (new/payload/check_sig), threshold recomputation from bitmasks with the declared "
               "stake in nobody's read set, signature/payload table for all 7 aggregate halves, verify_bytes guards, no unreviewed panic under try_new, "
-              "validation before the pool lock. Cryptographic soundness of BLS is not decided. Composes the threshold constants and the exact u128 comparison of C01.", "DESIGN.md §3 C09",
+              "validation before the pool lock. Cryptographic soundness of BLS is not decided. Composes the threshold constants and the exact u128 comparison of C01. Composes C19 (bounded decoders incl. read_bitvec).", "DESIGN.md §3 C09",
               "who-may-construct, guard dominance, tables-agree, who-may-read, panic-site closure"),
     "C10": _e("Reviewed panic-site closure from every network-facing entry point (each site auto-discharged by a typed idiom or listed with a "
               "reason; unlisted site => violation), sanitising of client transactions, validate-then-use typing, lock-order graph, error discipline."
-              " Space reservation covers the encoded size of the largest admitted transaction; composes C11's validated-shard-set and coder-reset obligations and C14's create_proof index guard (the invariants the reviewed expect()/assert sites rely on). The count prefix of a slice payload is incremented exactly for the transactions that are serialised; composes C05 stale-event drops.",
+              " Space reservation covers the encoded size of the largest admitted transaction; composes C11's validated-shard-set and coder-reset obligations and C14's create_proof index guard (the invariants the reviewed expect()/assert sites rely on). The count prefix of a slice payload is incremented exactly for the transactions that are serialised; composes C05 stale-event drops. Restored-size bound in Reed-Solomon deshred, repair request identifier = hash of the whole request (composed from C11 / C14); effectful loops run to exhaustion.",
               "DESIGN.md §3 C10", "call-graph closure + panic-site classification + lock live-range analysis"),
     "C11": _e("Shredder constants and per-impl arithmetic identities (const-eval), NotEnoughShreds/TooMuchData guards dominating coder calls, "
               "shreds untouched on error (no fallible op after the in-place fill), integrity gates on the Ok path."
-              " Padding arithmetic of ReedSolomonCoder::shred evaluated for every payload length 0..=MAX_DATA_PER_SLICE; ValidatedShreds::try_new admits exactly even non-zero equal shard sizes with kinds matching positions; SlicePayload::try_from admits every encodable length; coder reset unconditional. The decoded tail (padding marker scan) is bounded by the data length and strips exactly one marker.", "DESIGN.md §3 C11",
+              " Padding arithmetic of ReedSolomonCoder::shred evaluated for every payload length 0..=MAX_DATA_PER_SLICE; ValidatedShreds::try_new admits exactly even non-zero equal shard sizes with kinds matching positions; SlicePayload::try_from admits every encodable length; coder reset unconditional. The decoded tail (padding marker scan) is bounded by the data length and strips exactly one marker. Every shard appended to the reassembled payload is behind the size bound for that payload; no new state-carrying field in the coders; no lossy casts.", "DESIGN.md §3 C11",
               "const facts + dominance/post-dominance over MIR"),
     "C12": _e("ValidatedShred::try_new verdict structure, SliceCommitment covers every SliceHeader field, key provenance leader(slot), cache "
               "writers, equivocation bookkeeping, consumed-subset-of-authenticated (data/coding tag)."
-              " A shred is stored only if its whole commitment equals the cached one or it fills a vacant cache entry; the 'cached commitment' argument of try_new is None or the blockstore's cache entry for the shred's own (slot, slice).", "DESIGN.md §3 C12",
+              " A shred is stored only if its whole commitment equals the cached one or it fills a vacant cache entry; the 'cached commitment' argument of try_new is None or the blockstore's cache entry for the shred's own (slot, slice). Composes C15 (ordered labelled pair hash, index domain, structural Hash equality).", "DESIGN.md §3 C12",
               "field coverage, provenance, who-may-write, consumed<=authenticated field-set rule"),
     "C13": _e("Once-only flags, malformed-content gates before `completed` (incl. parent slot < block slot), hash provenance, leader fast path "
               "shares the reconstruction, Pool::add_block argument provenance."
-              " 'Switched to the same parent' compares the whole block id; NoAction only for NotEnoughShreds, every other decoding error is an Error; last-slice marker prunes slices beyond it. Composes the block lookup of C14 (disseminated block only on equal hash, repaired blocks otherwise).", "DESIGN.md §3 C13", "guard dominance, who-may-write, provenance over MIR"),
+              " 'Switched to the same parent' compares the whole block id; NoAction only for NotEnoughShreds, every other decoding error is an Error; last-slice marker prunes slices beyond it. Composes the block lookup of C14 (disseminated block only on equal hash, repaired blocks otherwise). Effectful loops run to exhaustion.", "DESIGN.md §3 C13", "guard dominance, who-may-write, provenance over MIR"),
     "C14": _e("Store only after request match + Merkle proof under the requested hash, re-request pairing after removal of the outstanding entry, "
               "identifier = content hash behind a rejecting comparison, responder table, no unreviewed panic under handle_response/answer_request."
-              " Every send / store / table update of handle_response is behind the outstanding-request test for the response's own request hash; create_double_merkle_proof only after get_slice_root answered for the same block and index. Block lookup decision table (disseminated only on equal hash, otherwise repaired[hash], None only for an unknown slot); composes C15 (index domain and last-leaf rule of the proofs the requester relies on).",
+              " Every send / store / table update of handle_response is behind the outstanding-request test for the response's own request hash; create_double_merkle_proof only after get_slice_root answered for the same block and index. Block lookup decision table (disseminated only on equal hash, otherwise repaired[hash], None only for an unknown slot); composes C15 (index domain and last-leaf rule of the proofs the requester relies on). Request identifier hashes the whole request; repaired shreds reach repaired[hash] unconditionally; effectful loops run to exhaustion.",
               "DESIGN.md §3 C14", "guard dominance, pairing (remove => re-issue on every non-storing exit), provenance"),
     "C15": _e("Index exhaustion in both proof walks (accepted index domain evaluated to be exactly index < 2^len on a finite grid), length bound dominating EMPTY_ROOTS indexing, side/label table, last-leaf rule and the "
               "EMPTY_ROOTS recurrence recomputed with hashlib from const-evaluated bytes, callers pass the index they act on."
-              " hash_leaf / hash_pair have a single, unconditional, labelled result; parity tests recognised in any spelling.", "DESIGN.md §3 C15",
+              " hash_leaf / hash_pair have a single, unconditional, labelled result; parity tests recognised in any spelling. Hash / root equality stays derived (or field-wise); no integer cast below 32 bits of an unbounded value; no new state-carrying field.", "DESIGN.md §3 C15",
               "dependence of verdict on residual index, const recomputation, guard dominance"),
     "C16": _e("No ambient nondeterminism (thread RNG, clocks, env, hash-order iteration) reachable from relay/tree computation or sampler "
               "constructors, seed provenance (slot, slice / slot, shred), cache key = seed inputs, forwarding unconditional on the receive path."
-              " RNGs used while constructing a sampler are seeded from constants only; Rotor's recipient filter excludes exactly the sampled relay and the slot's leader (truth table + provenance); Turbine forwards to every child of the tree of (slot, index_in_slot). TurbineTree children: one definition, computed unconditionally, offset own_pos*fanout+1, fanout children.",
+              " RNGs used while constructing a sampler are seeded from constants only; Rotor's recipient filter excludes exactly the sampled relay and the slot's leader (truth table + provenance); Turbine forwards to every child of the tree of (slot, index_in_slot). TurbineTree children: one definition, computed unconditionally, offset own_pos*fanout+1, fanout children. A changed fanout comes with a fresh tree cache; structural equality / order of cache keys; effectful loops run to exhaustion.",
               "DESIGN.md §3 C16", "effect sets closed over the call graph + provenance"),
     "C17": _e("Determinism of all sampling strategies and constructors (same effect rule), reset on every path of the decaying sampler, reviewed "
               "panic sites of constructors/samplers, committee indexed by ShredIndex with TOTAL_SHREDS seats, FA1 phase 1 (floor(f*k) required seats: formula "
               "shape, unconditional, sibling constructors agree, always emitted). Numerical guarantees over all distributions/seeds are not decided."
-              " Fait-Accompli phase 1 in all three constructors (seats = floor(raw stake fraction * k), unconditional, siblings agree, weight removed = seats*total/k); decaying sampler: accepted exactly when random >= count/max_samples, counter incremented on exactly that path under one lock. Sampler constructors keep the validator list they were given (index == id); the FA2 fallback is drawn only after the medium-node loop and reads the committee filled so far.",
+              " Fait-Accompli phase 1 in all three constructors (seats = floor(raw stake fraction * k), unconditional, siblings agree, weight removed = seats*total/k); decaying sampler: accepted exactly when random >= count/max_samples, counter incremented on exactly that path under one lock. Sampler constructors keep the validator list they were given (index == id); the FA2 fallback is drawn only after the medium-node loop and reads the committee filled so far. No sampler field holds interior-mutable state behind Arc/Rc; no lossy casts; no new state-carrying field.",
               "DESIGN.md §3 C17, §8.3", "effect sets, must-pass-through, reviewed panic sites, sibling cross-check + exact guard set"),
     "C18": _e("No unreviewed panic site reachable from recover_from_standstill, bundle ranges, field coverage of get_certs/get_own_votes, Votor "
               "forwards unconditionally, trigger guard in standstill_loop."
-              " get_certs / get_own_votes include every held item unconditionally and walk the whole range; should_ignore_pool_event never ignores Standstill (truth table). Composes C07 (the receiver computes its ready parents with the parent-ready tracker).", "DESIGN.md §3 C18", "panic-site closure, provenance, ADT field coverage, guard dominance"),
+              " get_certs / get_own_votes include every held item unconditionally and walk the whole range; should_ignore_pool_event never ignores Standstill (truth table). Composes C07 (the receiver computes its ready parents with the parent-ready tracker). Votor::broadcast sends whatever it is given (exact empty guard set).", "DESIGN.md §3 C18", "panic-site closure, provenance, ADT field coverage, guard dominance"),
     "C19": _e("Single exact decoding door with MTU-capped preallocation, SchemaRead/SchemaWrite symmetry over the wire type graph, hand-written "
-              "impl pairs agree (ordered primitive sequence), bounded indices validate on read, worst-case encoded size of every wire root <= MTU. Derive-generated impls are scanned for explicit wincode length / container schema overrides (none reviewed); composes the slice-payload transaction count rule of C10.",
+              "impl pairs agree (ordered primitive sequence), bounded indices validate on read, worst-case encoded size of every wire root <= MTU. Derive-generated impls are scanned for explicit wincode length / container schema overrides (none reviewed); composes the slice-payload transaction count rule of C10. Slice-content decoders use deserialize_exact with a limit >= MAX_DATA_PER_SLICE; structural equality of wire types.",
               "DESIGN.md §3 C19", "type-graph walk + max-encoded-size calculator + reader/writer sequence agreement"),
     "C20": _e("Fork isolation by typing (no unsafe, Freeze nodes, only Arc::make_mut yields &mut into shared nodes, no &mut/Arc<Node> escapes; "
               "compile-fail witness), trie walks decide hits by whole-key equality and navigate by chunk_at(key, depth), lane-wise wrapping commitment algebra, "
               "engine determinism (effect rule, ordered map, seed table)."
-              " Trie walks decide a hit by one whole-key equality and navigate by chunk_at(key, depth) (formula checked by value); bitmap/children index agreement; len bookkeeping; LtHash::observe removes/adds exactly when that side is Some; Known before Pending lookup; GENESIS only as the alternative of the parent's own hash.",
+              " Trie walks decide a hit by one whole-key equality and navigate by chunk_at(key, depth) (formula checked by value); bitmap/children index agreement; len bookkeeping; LtHash::observe removes/adds exactly when that side is Some; Known before Pending lookup; GENESIS only as the alternative of the parent's own hash. chunk_at evaluated on every path for all depths against its bit-string definition; finalize keeps every entry with slot >= finalized slot; structural impls; no lossy casts.",
               "DESIGN.md §3 C20", "type facts (Freeze, unsafe), who-may-call, effect sets"),
 }
 
